@@ -713,13 +713,19 @@ impl TypeChecker {
         statements: &Vec<Statement>,
         ctx: TypeCtx,
     ) -> TypeResult<(Option<TyID>, Option<TyID>)> {
+        // The last statement gives the block its value if it is an expression - it is checked
+        // once, as that expression. Checking it as a statement as well doubles the work for
+        // every level of blocks that end in a block.
+        let (last, statements) = match statements.split_last() {
+            Some((Statement::StatementExpression { value, .. }, rest)) => (Some(value), rest),
+            _ => (None, statements.as_slice()),
+        };
         let mut ret = None;
         for stmt in statements.iter() {
             let stmt_ret = self.statement(stmt, ctx)?;
             ret = self.unify_option(span, ctx, ret, stmt_ret)?;
         }
-        // We typecheck the last statement twice sometimes, doesn't matter though.
-        let value = if let Some(Statement::StatementExpression { value, .. }) = statements.last() {
+        let value = if let Some(value) = last {
             let (value_ret, value) = self.expression(value, ctx)?;
             ret = self.unify_option(span, ctx, ret, value_ret)?;
             Some(value)
